@@ -227,6 +227,7 @@ type gkDeco struct {
 
 func (s *Sim) wrapGK(n *RecvNode, source string, gk sts.GateKeeper) sts.GateKeeper {
 	d := &gkDeco{s: s, n: n, source: source, gk: gk}
+	noteGateKeeper(s, gk)
 	s.mu.Lock()
 	n.gks[source] = d
 	s.mu.Unlock()
